@@ -312,4 +312,74 @@ theorem run_nil (F : Family) : run F [] = (F, []) := rfl
 theorem run_cons (F : Family) (op : Op) (rest : List Op) :
     run F (op :: rest) = ((run (step F op).1 rest).1, (step F op).2 :: (run (step F op).1 rest).2) := rfl
 
+theorem run_append_single (F : Family) (ops : List Op) (op : Op) :
+    run F (ops ++ [op]) = ((step (run F ops).1 op).1, (run F ops).2 ++ [(step (run F ops).1 op).2]) := by
+  induction ops generalizing F with
+  | nil => rfl
+  | cons o rest ih => simp only [List.cons_append, run_cons, ih]
+
+/-! ### no shadowed entries: the association lists are what the Go maps hold -/
+
+theorem mem_of_alookup {α β} [DecidableEq α] (l : List (α × β)) (a : α) (b : β)
+    (h : alookup a l = some b) : (a, b) ∈ l := by
+  induction l with
+  | nil => cases h
+  | cons p r ih =>
+    obtain ⟨a', b'⟩ := p
+    rw [alookup_cons] at h
+    by_cases e : a = a'
+    · simp only [e, if_true, Option.some.injEq] at h
+      simp [e, h]
+    · simp only [e, if_false] at h
+      exact List.mem_cons_of_mem _ (ih h)
+
+theorem alookup_of_mem_nodup {α β} [DecidableEq α] (l : List (α × β)) (hnd : (l.map Prod.fst).Nodup)
+    (a : α) (b : β) (h : (a, b) ∈ l) : alookup a l = some b := by
+  induction l with
+  | nil => cases h
+  | cons p r ih =>
+    obtain ⟨a', b'⟩ := p
+    simp only [List.map_cons, List.nodup_cons] at hnd
+    rw [alookup_cons]
+    rcases List.mem_cons.mp h with e | hin
+    · cases e; simp
+    · have : a ≠ a' := by
+        intro e; apply hnd.1; rw [← e]
+        exact List.mem_map.mpr ⟨(a, b), hin, rfl⟩
+      simp only [this, if_false]
+      exact ih hnd.2 hin
+
+/-- Well-formed tables: mutually inverse, and no key occurs twice (so first-match lookup on
+the list and membership in the list say the same thing). -/
+structure Wf (t : Tables) : Prop where
+  inv : Inv t
+  symKeys : (t.sym.map Prod.fst).Nodup
+  revKeys : (t.rev.map Prod.fst).Nodup
+
+theorem wf_empty : Wf Tables.empty := ⟨inv_empty, by simp [Tables.empty], by simp [Tables.empty]⟩
+
+theorem wf_insert (t : Tables) (name : Name) (k : Nat) (h : Wf t)
+    (hn : alookup name t.sym = none) (hk : alookup k t.rev = none) :
+    Wf ⟨(name, k) :: t.sym, (k, name) :: t.rev⟩ := by
+  refine ⟨inv_insert t name k h.inv hn hk, ?_, ?_⟩
+  · simp only [List.map_cons, List.nodup_cons]
+    exact ⟨(alookup_none_iff name t.sym).mp hn, h.symKeys⟩
+  · simp only [List.map_cons, List.nodup_cons]
+    exact ⟨(alookup_none_iff k t.rev).mp hk, h.revKeys⟩
+
+theorem makeSymbol_wf (t : Tables) (c : Nat) (name : Name) (h : Wf t) : Wf (makeSymbol t c name).tab := by
+  rcases makeSymbol_cases t c name with ⟨k, _, e⟩ | ⟨hn, k, hk, _, e⟩
+  · rw [e]; exact h
+  · rw [e]; exact wf_insert t name k h hn hk
+
+theorem step_wf (F : Family) (op : Op) (h : Wf F.tab) : Wf (step F op).1.tab := by
+  rcases step_shape F op with ⟨ht, _⟩ | ⟨c, name, ht, _, _, _⟩
+  · rw [ht]; exact h
+  · rw [ht]; exact makeSymbol_wf F.tab c name h
+
+theorem run_wf (F : Family) (ops : List Op) (h : Wf F.tab) : Wf (run F ops).1.tab := by
+  induction ops generalizing F with
+  | nil => exact h
+  | cons op rest ih => rw [run_cons]; exact ih _ (step_wf F op h)
+
 end ZygoVerif.SymTab
